@@ -156,7 +156,13 @@ impl TcpChannelTask {
                 if let Err(err) = stream.set_nodelay(true) {
                     tracing::warn!("unable to enable TCP_NODELAY: {}", err);
                 }
-                match self.connection_handler.handle(stream, &self.host).await {
+                // a TLS handshake lasts as long as the peer likes: until it is over the channel
+                // is not connected, so requests keep failing and disable / shutdown keep working
+                let handshake = tokio::select! {
+                    res = self.connection_handler.handle(stream, &self.host) => res,
+                    res = self.client_loop.fail_requests() => return Err(res),
+                };
+                match handshake {
                     Err(err) => self.handle_failed_connection(err).await,
                     Ok(phys) => self.run_connection(phys).await,
                 }
